@@ -170,6 +170,9 @@ def _run_mutant(args) -> Tuple[str, str, List[str], str]:
         keys = [o.key() for o in rep.violations]
         new = [k for k in keys if k not in base_keys]
         exp = m.get("expect")
+        if m.get("expect_silent"):
+            # a behaviour-preserving edit: the check must stay silent
+            return (m["id"], "silent-ok" if not new else "false-alarm", new[:5], "")
         if new and (exp is None or any(exp in k for k in new)):
             return (m["id"], "caught", new[:5], "")
         if new:
@@ -201,8 +204,9 @@ def selftest(prop_id: str, repo: str, base: Report, jobs: int = 16) -> dict:
         "mutants": len(mutants),
         "applicable": sum(1 for r in results if r[1] != "inapplicable"),
         "inapplicable": sum(1 for r in results if r[1] == "inapplicable"),
-        "caught": sum(1 for r in results if r[1] in ("caught", "caught-other")),
-        "missed": [r[0] for r in results if r[1] == "missed"],
+        "caught": sum(1 for r in results if r[1] in ("caught", "caught-other", "silent-ok")),
+        "benign_variants_silent": sum(1 for r in results if r[1] == "silent-ok"),
+        "missed": [r[0] for r in results if r[1] in ("missed", "false-alarm")],
         "errors": [(r[0], r[3][:300]) for r in results if r[1] in ("analysis-error", "crash")],
         "pristine_silent": not prist_new,
         "results": [
